@@ -9,7 +9,9 @@ Ev(e, id, n, a, b, x) == [e |-> e, id |-> id, n |-> n, a |-> a, b |-> b, x |-> x
 \* Linux signal numbers of the first-class signals (watchexec-signals, Signal::to_nix)
 SigNum(name) ==
     CASE name = "HUP" -> 1 [] name = "INT" -> 2 [] name = "QUIT" -> 3 [] name = "KILL" -> 9
-      [] name = "USR1" -> 10 [] name = "USR2" -> 12 [] name = "TERM" -> 15 [] OTHER -> 0
+      [] name = "USR1" -> 10 [] name = "USR2" -> 12 [] name = "TERM" -> 15
+      \* custom signals by number; one the platform does not know is delivered as SIGTERM
+      [] name = "23" -> 23 [] name = "29" -> 29 [] name = "99999" -> 15 [] name = "0" -> 15 [] OTHER -> 0
 
 \* What each public method of Job enqueues.
 
